@@ -102,7 +102,7 @@ def run(run):
     rc, out = lib.coq_make(["Model/Body.vo", "Model/Dump.vo"])
     if rc != 0:
         run.correspondence_break("Model/Body.v or Model/Dump.v does not build", None, error=out[-1500:])
-    n = 250 if run.tier == "quick" else 6000
+    n = 400 if run.tier == "quick" else 6000
     cases = [gen_dump(run.rng) for _ in range(n)]
     res = lib.run_impl("c12", [{"pages": c["pages"], "nsset": c["nsset"]} for c in cases], shards=lib.NCPU)
     coq_cases, idx = [], []
